@@ -24,6 +24,8 @@ import (
 	"github.com/libp2p/go-libp2p/core/peer"
 
 	"github.com/evstack/ev-node/block"
+	coreda "github.com/evstack/ev-node/core/da"
+	proxy "github.com/evstack/ev-node/da/jsonrpc"
 	"github.com/evstack/ev-node/node"
 	"github.com/evstack/ev-node/pkg/config"
 	"github.com/evstack/ev-node/pkg/genesis"
@@ -64,7 +66,18 @@ type Scenario struct {
 	RestartAgg int `json:"restart_agg,omitempty"`
 	// SubmitDelayMs: the DA layer answers an accepted submission only after this long, whatever happened to
 	// the submitter's context meanwhile (an answer that is on its way when the node is asked to stop).
-	SubmitDelayMs int    `json:"submit_delay_ms,omitempty"`
+	SubmitDelayMs int `json:"submit_delay_ms,omitempty"`
+	// ViaProxy: the aggregator reaches the DA layer through the REAL JSON-RPC DA client and server (da/jsonrpc)
+	// as the applications wire it, with the client's batch size limit set to ClientLimit bytes.
+	ViaProxy    bool `json:"via_proxy,omitempty"`
+	ClientLimit int  `json:"client_limit,omitempty"`
+	// ExactFit: the client's size limit becomes exactly the size of the first data blob the node submits (a
+	// block filled exactly up to the limit).
+	ExactFit bool `json:"exact_fit,omitempty"`
+	// BigTxs: injected transactions are padded to between 90 and 4000 bytes (non-uniform blob sizes).
+	BigTxs bool `json:"big_txs,omitempty"`
+	// MaxPending: the aggregator's limit on blocks awaiting DA submission (0: none).
+	MaxPending    int    `json:"max_pending,omitempty"`
 	CustomPayload bool   `json:"custom_payload,omitempty"`
 	KeyLabel      string `json:"key_label,omitempty"`
 }
@@ -87,11 +100,13 @@ func freePort() int {
 
 // Proc is one running (or stopped) real node.
 type Proc struct {
-	Name   string
-	Cfg    config.Config
-	KV     ds.Batching
-	Exec   *world.ExecDbl
-	DA     *world.DADbl
+	Name string
+	Cfg  config.Config
+	KV   ds.Batching
+	Exec *world.ExecDbl
+	DA   *world.DADbl
+	// Via, when set, is what the node talks to instead of DA (the JSON-RPC client in front of DA)
+	Via    coreda.DA
 	NK     *key.NodeKey
 	Sgn    signer.Signer
 	Gen    genesis.Genesis
@@ -133,12 +148,16 @@ func (p *Proc) start(sgn signer.Signer, mo block.ManagerOptions) error {
 	}
 	ctx, cancel := context.WithCancel(context.Background())
 	var seq *single.Sequencer
-	seq, err = single.NewSequencerWithQueueSize(ctx, world.Logger(), p.KV, p.DA, []byte(p.Cfg.ChainID), p.Cfg.Node.BlockTime.Duration, nil, p.Cfg.Node.Aggregator, 1000)
+	var nodeDA coreda.DA = p.DA
+	if p.Via != nil {
+		nodeDA = p.Via
+	}
+	seq, err = single.NewSequencerWithQueueSize(ctx, world.Logger(), p.KV, nodeDA, []byte(p.Cfg.ChainID), p.Cfg.Node.BlockTime.Duration, nil, p.Cfg.Node.Aggregator, 1000)
 	if err != nil {
 		cancel()
 		return fmt.Errorf("sequencer: %w", err)
 	}
-	n, err := node.NewNode(ctx, p.Cfg, p.Exec, seq, p.DA, sgn, p2pc, p.Gen, p.KV, node.DefaultMetricsProvider(p.Cfg.Instrumentation), world.Logger(), node.NodeOptions{ManagerOptions: mo})
+	n, err := node.NewNode(ctx, p.Cfg, p.Exec, seq, nodeDA, sgn, p2pc, p.Gen, p.KV, node.DefaultMetricsProvider(p.Cfg.Instrumentation), world.Logger(), node.NodeOptions{ManagerOptions: mo})
 	if err != nil {
 		cancel()
 		return fmt.Errorf("node.NewNode: %w", err)
@@ -232,7 +251,7 @@ func Run(sc Scenario, dir string) *Result {
 	res.PubKey = pub
 	base := world.NodeOpts{ChainID: "rw-chain", InitialHeight: sc.InitialHeight, GenesisTime: time.Now().Add(-time.Minute),
 		BlockTime: time.Duration(sc.BlockMs) * time.Millisecond, DABlockTime: time.Duration(sc.DAMs) * time.Millisecond,
-		LazyInterval: 400 * time.Millisecond, MempoolTTL: 2, CustomPayload: sc.CustomPayload}
+		LazyInterval: 400 * time.Millisecond, MempoolTTL: 2, CustomPayload: sc.CustomPayload, MaxPending: uint64(sc.MaxPending)}
 	gen := world.MakeGenesis(base, pub)
 	res.Genesis = gen
 	da := world.NewDADbl(0)
@@ -256,6 +275,34 @@ func Run(sc Scenario, dir string) *Result {
 	if a.NK == nil || b.NK == nil {
 		res.Inconclusive = "node key generation failed"
 		return res
+	}
+	if sc.ViaProxy {
+		port := freePort()
+		srv := proxy.NewServer(world.Logger(), "127.0.0.1", fmt.Sprint(port), da)
+		if err := srv.Start(context.Background()); err != nil {
+			res.Inconclusive = "JSON-RPC DA server does not start: " + err.Error()
+			return res
+		}
+		defer func() {
+			sctx, c := context.WithTimeout(context.Background(), 3*time.Second)
+			_ = srv.Stop(sctx)
+			c()
+		}()
+		cl, err := proxy.NewClient(context.Background(), world.Logger(), fmt.Sprintf("http://127.0.0.1:%d", port), "", "")
+		if err != nil {
+			res.Inconclusive = "JSON-RPC DA client: " + err.Error()
+			return res
+		}
+		defer cl.Close()
+		if sc.ClientLimit > 0 {
+			cl.DA.MaxBlobSize = uint64(sc.ClientLimit)
+		}
+		var via coreda.DA = &cl.DA
+		if sc.ExactFit {
+			via = &exactFit{DA: &cl.DA, api: &cl.DA}
+		}
+		a.Via = via
+		res.Labels = append(res.Labels, "da-via-json-rpc-proxy")
 	}
 	switch sc.Mode {
 	case "p2p-only":
@@ -313,8 +360,13 @@ func Run(sc Scenario, dir string) *Result {
 	inject := func() {
 		for nextStep < len(sc.Steps) && produced() >= sc.Steps[nextStep].AtBlock {
 			for _, tx := range sc.Steps[nextStep].Txs {
-				a.Exec.InjectTx([]byte(tx))
-				res.Injected = append(res.Injected, []byte(tx))
+				btx := []byte(tx)
+				if sc.BigTxs {
+					pads := []int{200, 1800, 700, 4000, 90, 2500}
+					btx = append(btx, bytes.Repeat([]byte{'.'}, pads[len(res.Injected)%len(pads)])...)
+				}
+				a.Exec.InjectTx(btx)
+				res.Injected = append(res.Injected, btx)
 			}
 			nextStep++
 		}
@@ -455,11 +507,17 @@ func Run(sc Scenario, dir string) *Result {
 	}
 	// a cleanly restarted aggregator must again report as DA-included what it had produced before the restart
 	// (its submissions are accepted; the inclusion marks were saved at shutdown)
-	if aggRestarted && aggHeightAtRestart >= first && a.Node != nil {
+	if res.TargetA >= first && a.Node != nil {
 		inc := func() uint64 { return a.Node.VerifBlockManager().GetDAIncludedHeight() }
-		_, stalled := waitProgress(func() bool { return inc() >= aggHeightAtRestart }, inc, aggGone)
+		want := res.TargetA
+		_, stalled := waitProgress(func() bool { return inc() >= want }, inc, aggGone)
 		if stalled {
-			res.IncStall = fmt.Sprintf("the aggregator was stopped cleanly at height %d and started again; the DA layer accepts every submission, yet for %s its DA-included height has stayed at %d (chain height %d)", aggHeightAtRestart, StallWindow+StallConfirm, inc(), a.Height())
+			how := "the DA layer accepts every submission"
+			if aggRestarted {
+				how = fmt.Sprintf("the aggregator was stopped cleanly at height %d and started again; the DA layer accepts every submission", aggHeightAtRestart)
+			}
+			res.IncStall = fmt.Sprintf("%s, yet for %s the aggregator's DA-included height has stayed at %d (it had produced block %d long before; chain height %d, %d headers / %d data pending)", how, StallWindow+StallConfirm, inc(), want, a.Height(),
+				a.Node.VerifBlockManager().VerifNumPendingHeaders(), a.Node.VerifBlockManager().VerifNumPendingData())
 		}
 	}
 	// let the aggregator's DA submissions and the full node's DA-inclusion settle a little (best effort)
@@ -533,4 +591,43 @@ func (r *Result) CompareChains() *world.Problem {
 		return &world.Problem{Sig: "exec-missing", Msg: fmt.Sprintf("full node height %d but its execution layer only executed up to %d", hb, next-1)}
 	}
 	return nil
+}
+
+// exactFit sits between the node and the JSON-RPC DA client: the client's size limit follows the size of the
+// largest data blob the node has offered so far (a block filled exactly up to the limit).
+type exactFit struct {
+	coreda.DA
+	api  *proxy.API
+	done bool
+	mu   sync.RWMutex
+}
+
+func (e *exactFit) SubmitWithOptions(ctx context.Context, blobs []coreda.Blob, gp float64, ns []byte, opts []byte) ([]coreda.ID, error) {
+	// the client reads its limit without synchronisation: the limit is only changed while no call is in flight
+	need := uint64(0)
+	e.mu.RLock()
+	cur, done := e.api.MaxBlobSize, e.done
+	e.mu.RUnlock()
+	for _, b := range blobs {
+		if sd, err := decodeData(b); err == nil && len(sd.Txs) > 0 && (!done || uint64(len(b)) > cur) && uint64(len(b)) > need {
+			need = uint64(len(b))
+		}
+	}
+	if need > 0 {
+		e.mu.Lock()
+		if !e.done || need > e.api.MaxBlobSize {
+			// the limit is the size of the largest data blob offered so far: every blob can be accepted, the
+			// largest one fills a submission exactly
+			e.api.MaxBlobSize = need
+			e.done = true
+		}
+		e.mu.Unlock()
+	}
+	e.mu.RLock()
+	defer e.mu.RUnlock()
+	return e.DA.SubmitWithOptions(ctx, blobs, gp, ns, opts)
+}
+
+func (e *exactFit) Submit(ctx context.Context, blobs []coreda.Blob, gp float64, ns []byte) ([]coreda.ID, error) {
+	return e.SubmitWithOptions(ctx, blobs, gp, ns, nil)
 }
